@@ -669,6 +669,29 @@ theorem fnmatch_code_sound_complete (fl : FnFlags) (hper : fl.period = false) (p
 example : wfnmatch (FnFlags.ofNat 1) (bytesOf "*x/[!b]*c") (bytesOf "axx/acac") = 0 ∧
     wfnmatch (FnFlags.ofNat 1) (bytesOf "*x/[!b]*c") (bytesOf "ax/x/ac") = 1 := by decide
 
+/-- CLASS NAMES ARE MATCHED EXACTLY.  `[:name:]` inside a bracket expression names a class only
+    when `name` is one of the twelve POSIX names, letter for letter (`cclassOf`).  For any other
+    name — a strict prefix (`al`, `dig`, `x`), the empty name, a valid name with an extra character,
+    wrong case — the bracket expression never matches any character and the whole pattern
+    tokenises to `never`, so by soundness the code's loop answers FNM_NOMATCH on every subject. -/
+theorem unknown_class_never_matches (fl : FnFlags) (name rest : List Nat)
+    (hn : cclassOf name = none) (hc : 58 ∉ name) :
+    (∀ c, matchClass fl (91 :: 58 :: (name ++ 58 :: 93 :: rest)) c = none) ∧
+    (∀ s, ¬ Matches fl (tokenize fl ((91 :: 91 :: 58 :: (name ++ 58 :: 93 :: rest)).length + 1)
+        (91 :: 91 :: 58 :: (name ++ 58 :: 93 :: rest))) s) := by
+  refine ⟨fun c => (unknown_class_never fl name rest c hn hc).1, fun s hm => ?_⟩
+  have h := (unknown_class_never fl name rest 0 hn hc).2
+  unfold toks at h
+  rw [h] at hm
+  exact no_never fl _ _ hm (by simp)
+
+example : cclassOf (bytesOf "al") = none ∧ cclassOf (bytesOf "") = none ∧ cclassOf (bytesOf "x") = none ∧
+    cclassOf (bytesOf "alphax") = none ∧ cclassOf (bytesOf "ALPHA") = none ∧
+    cclassOf (bytesOf "alpha") = some .alpha ∧
+    wfnmatch (FnFlags.ofNat 0) (bytesOf "[[:al:]]") (bytesOf "a") = 1 ∧
+    wfnmatch (FnFlags.ofNat 0) (bytesOf "[[::]]") (bytesOf "a") = 1 ∧
+    wfnmatch (FnFlags.ofNat 0) (bytesOf "[[:alpha:]]") (bytesOf "a") = 0 := by decide
+
 /-- NO RECURSION BUDGET: `wfnmatch` is iterative (one remembered retry point, no recursion, no
     depth limit), so `FNM_NOMATCH` is never a resource verdict.  In the model the loop gets the fuel
     `(|pat|+2)·(|str|+2)+8`; for EVERY pattern and subject, however long or star-laden, it ends within
